@@ -255,7 +255,21 @@ fn permutations(n: usize) -> Vec<Vec<usize>> {
 }
 
 fn entry<D: Subject<f64>>(d: Dims, l: &Layout, re: f64, salt: usize) -> (D, J) {
-    let vals: Vec<f64> = (0..l.nslots()).map(|i| if i == 0 { re } else { part_value(i + salt * 7, 1 + (i + salt) % 3) }).collect();
+    entry_scaled::<D>(d, l, re, salt, 1.0)
+}
+
+/// scale of the matrix classes whose entries (real AND derivative parts, so that the whole problem
+/// is the same up to a power of two) are scaled
+fn class_scale(class: &str) -> f64 {
+    match class {
+        "scaled-small" => 2f64.powi(-60),
+        "scaled-large" => 2f64.powi(50),
+        _ => 1.0,
+    }
+}
+
+fn entry_scaled<D: Subject<f64>>(d: Dims, l: &Layout, re: f64, salt: usize, scale: f64) -> (D, J) {
+    let vals: Vec<f64> = (0..l.nslots()).map(|i| if i == 0 { re } else { scale * part_value(i + salt * 7, 1 + (i + salt) % 3) }).collect();
     let p = Parts { vals, present: vec![true; l.ngroups()] };
     (D::build(d, &p), p.to_jet::<DD>(l))
 }
@@ -340,7 +354,7 @@ fn crate_routines<D: Subject<f64> + Copy>(ctx: &mut Ctx, d: Dims, mats: &[(Vec<V
         let mut aj: Vec<Vec<J>> = vec![vec![jz(l); n]; n];
         for i in 0..n {
             for j in 0..n {
-                let (v, jv) = entry::<D>(d, l, a_re[i][j], i * n + j);
+                let (v, jv) = entry_scaled::<D>(d, l, a_re[i][j], i * n + j, class_scale(class));
                 ad[(i, j)] = v;
                 aj[i][j] = jv;
             }
@@ -404,7 +418,7 @@ fn crate_routines<D: Subject<f64> + Copy>(ctx: &mut Ctx, d: Dims, mats: &[(Vec<V
         let mut aj: Vec<Vec<J>> = vec![vec![jz(l); n]; n];
         for i in 0..n {
             for j in i..n {
-                let (v, jv) = entry::<D>(d, l, a_re[i][j], i * n + j);
+                let (v, jv) = entry_scaled::<D>(d, l, a_re[i][j], i * n + j, class_scale(class));
                 ad[(i, j)] = v;
                 ad[(j, i)] = v;
                 aj[i][j] = jv.clone();
@@ -458,7 +472,7 @@ fn nalgebra_routines<D: Subject<f64> + nalgebra::RealField>(ctx: &mut Ctx, d: Di
         let mut ad = DMatrix::<D>::from_element(n, n, D::from(0.0));
         for i in 0..n {
             for j in 0..n {
-                let (v, jv) = entry::<D>(d, l, a_re[i][j], i * n + j);
+                let (v, jv) = entry_scaled::<D>(d, l, a_re[i][j], i * n + j, class_scale(class));
                 ad[(i, j)] = v;
                 aj[i][j] = jv;
             }
@@ -540,7 +554,7 @@ fn nalgebra_routines<D: Subject<f64> + nalgebra::RealField>(ctx: &mut Ctx, d: Di
         let mut ad = DMatrix::<D>::from_element(n, n, D::from(0.0));
         for i in 0..n {
             for j in i..n {
-                let (v, jv) = entry::<D>(d, l, a_re[i][j], i * n + j);
+                let (v, jv) = entry_scaled::<D>(d, l, a_re[i][j], i * n + j, class_scale(class));
                 ad[(i, j)] = v.clone();
                 ad[(j, i)] = v;
                 aj[i][j] = jv.clone();
@@ -660,7 +674,7 @@ fn matrix_sets(mode: Mode) -> (Vec<(Vec<Vec<f64>>, &'static str)>, Vec<(Vec<Vec<
             }
         }
     }
-    // the same real parts scaled by powers of two (derivative parts stay O(1)): conditioning, and
+    // the same matrices scaled by powers of two (real and derivative parts): conditioning, and
     // therefore singularity, does not depend on the magnitude of the entries
     let mut scaled: Vec<(Vec<Vec<f64>>, &'static str)> = Vec::new();
     let (mut ka, mut kr) = (0usize, 0usize);
